@@ -218,6 +218,8 @@ def export_cases(module, cfg=None, workers=1, heap='4g', timeout=1800, env=None,
         m = _EXPORT.match(line.strip())
         if m:
             cases.append(json.loads(_unquote(m.group(1))))
+    # with several workers TLC prints the cases in a different order on every run: a canonical order makes seeded samples repeatable
+    cases.sort(key=lambda x: json.dumps(x, sort_keys=True))
     return cases, res
 
 
